@@ -55,6 +55,42 @@ func c15RefValid(labels []vh.Hex) (ok bool, why string) {
 	return true, ""
 }
 
+// c15RefWire is the RFC 1035 wire form of a name: every label behind its length octet, then the root.
+func c15RefWire(labels []vh.Hex) []byte {
+	var w []byte
+	for _, l := range labels {
+		w = append(w, byte(len(l)))
+		w = append(w, l...)
+	}
+	return append(w, 0)
+}
+
+// c15Plain reports whether every byte of every label is one that Name.String() writes verbatim
+// ([0-9A-Za-z-]); only for such names is the dotted form parseable back by ParseName (ParseName
+// does not undo the \xXX escapes, on the unchanged tree either).
+func c15Plain(labels []vh.Hex) bool {
+	for _, l := range labels {
+		for _, b := range l {
+			if !(b == '-' || '0' <= b && b <= '9' || 'A' <= b && b <= 'Z' || 'a' <= b && b <= 'z') {
+				return false
+			}
+		}
+	}
+	return true
+}
+
+func c15Escapes(labels []vh.Hex) int {
+	n := 0
+	for _, l := range labels {
+		for _, b := range l {
+			if !(b == '-' || '0' <= b && b <= '9' || 'A' <= b && b <= 'Z' || 'a' <= b && b <= 'z') {
+				n++
+			}
+		}
+	}
+	return n
+}
+
 func c15NameEq(a Name, b [][]byte) bool {
 	if len(a) != len(b) {
 		return false
@@ -106,6 +142,9 @@ func c15NameCheck(t vh.Fataler, rec *vh.Rec, c c15NameCase) {
 	var tags []string
 	if oct == 255 {
 		tags = append(tags, "octets255")
+		if c15Plain(c.Labels) {
+			tags = append(tags, "plain-octets255")
+		}
 	}
 	if oct == 256 {
 		tags = append(tags, "octets256")
@@ -122,7 +161,18 @@ func c15NameCheck(t vh.Fataler, rec *vh.Rec, c c15NameCase) {
 	if len(c.Labels) == 0 {
 		tags = append(tags, "root")
 	}
+	esc := c15Escapes(c.Labels)
+	if esc > 0 && refOK {
+		tags = append(tags, "escaped-bytes")
+		if esc+3*esc+oct-2 > 253 { // dotted form longer than 253 characters although the wire form fits
+			tags = append(tags, "escaped-dotted>253")
+		}
+		if oct >= 250 {
+			tags = append(tags, "escaped-near-limit")
+		}
+	}
 	nontriv := len(c.Labels) > 0 && (oct >= 239 && oct <= 272 || maxLabel >= 62 && maxLabel <= 65)
+
 	done := func(outcome string) {
 		cl := []string{outcome}
 		for _, tg := range tags {
@@ -131,6 +181,30 @@ func c15NameCheck(t vh.Fataler, rec *vh.Rec, c c15NameCase) {
 		rec.Case(nontriv, vh.Digest(c), c, cl...)
 	}
 
+	// the decoder, fed the reference wire form inside a one-question message, must accept exactly the
+	// names the wire-format rule allows (this does not depend on NewName having accepted the name)
+	if maxLabel <= 63 && why != "empty-label" {
+		ref := c15RefWire(c.Labels)
+		dg := append([]byte{0x12, 0x34, 0x01, 0x00, 0, 1, 0, 0, 0, 0, 0, 0}, ref...)
+		dg = append(dg, 0, 16, 0, 1)
+		var m Message
+		var derr error
+		if pan, what := c15h.Catch(func() { m, derr = MessageFromWireFormat(dg) }); pan {
+			done("PANIC")
+			rec.Violation(t, "dns:name:decode-panic", c, "MessageFromWireFormat panicked on the reference wire form of a name (%d labels, %d octets): %s", len(c.Labels), oct, what)
+			return
+		}
+		switch {
+		case refOK && (derr != nil || len(m.Question) != 1 || !c15NameEq(m.Question[0].Name, orig)):
+			done("VALID-WIRE-REJECTED")
+			rec.Violation(t, "dns:name:valid-wire-rejected", c, "MessageFromWireFormat does not read a question whose name is valid on the wire (%d labels, longest %d, %d octets <= 255, %d bytes outside [0-9A-Za-z-]): err=%v", len(c.Labels), maxLabel, oct, esc, derr)
+			return
+		case !refOK && derr == nil:
+			done("INVALID-WIRE-ACCEPTED")
+			rec.Violation(t, "dns:name:over-limit-accepted", c, "MessageFromWireFormat accepted a question name of %d octets on the wire (limit 255)", oct)
+			return
+		}
+	}
 	var name Name
 	var err error
 	if pan, what := c15h.Catch(func() { name, err = NewName(labels) }); pan {
@@ -139,8 +213,13 @@ func c15NameCheck(t vh.Fataler, rec *vh.Rec, c c15NameCase) {
 		return
 	}
 	if err != nil {
-		// a rejection is always acceptable; that valid boundary names are still accepted is
-		// enforced through the required classes octets255:accepted / label63:accepted
+		if refOK {
+			// the acceptance rule is the wire format's (every label 1-63 bytes, 255 octets in all), not
+			// the implementation's: a name it allows is a value the codec must represent
+			done("VALID-REJECTED")
+			rec.Violation(t, "dns:name:valid-rejected", c, "NewName rejects a name that is valid on the wire (%d labels, longest %d, %d octets <= 255, %d bytes outside [0-9A-Za-z-]): %v", len(c.Labels), maxLabel, oct, esc, err)
+			return
+		}
 		done("rejected")
 		return
 	}
@@ -162,6 +241,11 @@ func c15NameCheck(t vh.Fataler, rec *vh.Rec, c c15NameCase) {
 	}
 	if err != nil {
 		done("rejected")
+		return
+	}
+	if refOK && !bytes.Equal(wire, c15RefWire(c.Labels)) {
+		done("WIRE-DIFFERS")
+		rec.Violation(t, "dns:name:wire-differs", c, "WriteName of a lone name (%d labels, %d octets) is not its RFC 1035 wire form: %s", len(c.Labels), oct, c15h.FirstDiff(c15RefWire(c.Labels), wire))
 		return
 	}
 	r := bytes.NewReader(append(append([]byte(nil), wire...), 0xAA, 0xBB))
@@ -207,6 +291,21 @@ func c15NameCheck(t vh.Fataler, rec *vh.Rec, c c15NameCase) {
 		rec.Violation(t, key, c, "a name of %d labels / %d octets (reference valid=%v %s) does not survive Message.WireFormat -> MessageFromWireFormat: err=%v", len(c.Labels), oct, refOK, why, rerr)
 		return
 	}
+	if refOK && c15Plain(c.Labels) {
+		var back Name
+		var perr error
+		if pan, what := c15h.Catch(func() { back, perr = ParseName(name.String()) }); pan {
+			done("PANIC")
+			rec.Violation(t, "dns:name:parse-panic", c, "ParseName(name.String()) panicked: %s", what)
+			return
+		}
+		if perr != nil || !c15NameEq(back, orig) {
+			done("MISMATCH")
+			rec.Violation(t, "dns:name:dotted-roundtrip", c, "ParseName(name.String()) of a name made of [0-9A-Za-z-] labels only (%d labels, %d octets) gave err=%v, %d labels", len(c.Labels), oct, perr, len(back))
+			return
+		}
+		tags = append(tags, "dotted")
+	}
 	if !refOK {
 		done("ACCEPTED-INVALID")
 		rec.Violation(t, "dns:name:over-limit-accepted", c, "NewName accepted a name that DNS cannot represent (%s: %d labels, longest label %d, %d octets)", why, len(c.Labels), maxLabel, oct)
@@ -215,28 +314,54 @@ func c15NameCheck(t vh.Fataler, rec *vh.Rec, c c15NameCase) {
 	done("accepted")
 }
 
-// label bytes: mostly host-name characters, plus the characters that matter to Name.String() (the
-// compression cache key) and to the label-type bits.
+// label bytes: the full 0-255 range, with weight on host-name characters and on the bytes that
+// Name.String() escapes ('_', '.', '\\', 0x00, >= 0x80 ...) or that collide with the label-type bits.
+var c15EscByte = []byte{'_', '_', '.', '\\', 0x00, 0x80, 0xff, 0xc0, 0x40, ' ', '*', '/', '@', 0x7f, 0xe9}
+
 var c15LabelByte = rapid.OneOf(
+	rapid.SampledFrom([]byte("abcdefghijklmnopqrstuvwxyzABCXYZ0123456789-")),
 	rapid.SampledFrom([]byte("abcdefghijklmnopqrstuvwxyz0123456789-")),
-	rapid.SampledFrom([]byte("abcdefghijklmnopqrstuvwxyz0123456789-")),
-	rapid.SampledFrom([]byte{'.', '\\', 'x', 'X', 'A', 'a', 'Z', '2', 'e', 0x00, 0xff, 0xc0, 0x40, ' '}),
+	rapid.SampledFrom(c15EscByte),
+	rapid.SampledFrom([]byte{'x', 'X', 'A', 'a', 'Z', '2', 'e'}),
 	rapid.Byte(),
+	rapid.ByteRange(0x80, 0xff),
 )
+
+const c15HostChars = "abcdefghijklmnopqrstuvwxyzABCDEFGHIJKLMNOPQRSTUVWXYZ0123456789-"
 
 func c15Label(rt *rapid.T, n int, tag string) vh.Hex {
 	if n == 0 {
 		return vh.Hex{}
 	}
-	if n > 8 && rapid.IntRange(0, 3).Draw(rt, tag+"fill") > 0 {
-		// long labels: content is rarely what matters; a seed keeps the draw count low
-		b := c15h.Expand(rapid.Uint64Range(2, 1<<40).Draw(rt, tag+"seed"), n)
-		for i := range b {
-			b[i] = "abcdefghijklmnopqrstuvwxyz234567"[b[i]&31]
+	kind := rapid.IntRange(0, 5).Draw(rt, tag+"kind")
+	if n <= 6 || kind == 0 {
+		if n <= 24 {
+			return rapid.SliceOfN(c15LabelByte, n, n).Draw(rt, tag)
 		}
-		return b
+		kind = 1 + n%5
 	}
-	return rapid.SliceOfN(c15LabelByte, n, n).Draw(rt, tag)
+	// longer labels: a seed keeps the draw count low
+	b := c15h.Expand(rapid.Uint64Range(2, 1<<40).Draw(rt, tag+"seed"), n)
+	switch kind {
+	case 1, 2: // host-name characters only
+		for i := range b {
+			b[i] = c15HostChars[int(b[i])%len(c15HostChars)]
+		}
+	case 3: // any byte
+	case 4: // only bytes that the dotted form escapes
+		for i := range b {
+			b[i] = c15EscByte[int(b[i])%len(c15EscByte)]
+		}
+	case 5: // host-name characters with one to four escaped bytes among them ("_conjure", "a.b")
+		pos := append([]byte{}, b...)
+		for i := range b {
+			b[i] = c15HostChars[int(b[i])%len(c15HostChars)]
+		}
+		for j := 0; j < 1+int(pos[0])%4 && j < n; j++ {
+			b[int(pos[j])%n] = c15EscByte[int(pos[n-1-j])%len(c15EscByte)]
+		}
+	}
+	return b
 }
 
 // c15SplitOctets draws label lengths whose wire encoding takes exactly oct octets (incl. the root).
@@ -290,23 +415,30 @@ func c15NameGen(rt *rapid.T) c15NameCase {
 		at := rapid.IntRange(0, len(lens)).Draw(rt, "at")
 		lens = append(lens[:at], append([]int{special}, lens[at:]...)...)
 	case 2, 3: // total length at the name limit
-		oct := rapid.SampledFrom([]int{250, 253, 254, 255, 255, 256, 256, 257, 258, 300}).Draw(rt, "octets")
+		oct := rapid.SampledFrom([]int{250, 251, 252, 253, 254, 255, 255, 255, 256, 256, 257, 258, 300}).Draw(rt, "octets")
 		lens = c15SplitOctets(rt, oct, false)
 	case 4: // as many labels as fit: 127 one-byte labels are 255 octets
 		oct := rapid.SampledFrom([]int{251, 253, 255, 257, 259}).Draw(rt, "octets")
 		lens = c15SplitOctets(rt, oct, true)
 	}
 	c := c15NameCase{Labels: []vh.Hex{}}
+	plain := rapid.IntRange(0, 3).Draw(rt, "plain") == 0 // a quarter of the names: host-name characters only
 	for i, l := range lens {
-		c.Labels = append(c.Labels, c15Label(rt, l, fmt.Sprintf("label%d", i)))
+		lab := c15Label(rt, l, fmt.Sprintf("label%d", i))
+		if plain {
+			for j := range lab {
+				lab[j] = c15HostChars[int(lab[j])%len(c15HostChars)]
+			}
+		}
+		c.Labels = append(c.Labels, lab)
 	}
 	return c
 }
 
 func TestVerif_C15_names(t *testing.T) {
-	rec := vh.NewRec("C15", "names", "rapid: names of 0-6 short labels; names with one label of 0/1/62/63/64/65/127/128/191/192/193/255/256 bytes; names whose wire length is 250-258 or 300 octets split into random or maximal labels; names of 125-129 one-byte labels; label bytes biased to host-name characters plus . \\ x case variants 0x00 0xff 0xc0 0x40. Oracle: accepted by NewName => WriteName->readName and Message.WireFormat->MessageFromWireFormat (second occurrence compressed) give the labels back and the reader stops right behind the name; a name invalid by RFC 1035 (label >63, empty label, >255 octets) must not be accepted. Non-trivial = wire length 239-272 octets or longest label 62-65; distinct by labels")
+	rec := vh.NewRec("C15", "names", "rapid: names of 0-6 short labels; names with one label of 0/1/62/63/64/65/127/128/191/192/193/255/256 bytes; names whose wire length is 250-258 or 300 octets split into random or maximal labels; names of 125-129 one-byte labels; label bytes from the full 0-255 range with weight on host-name characters and on bytes the dotted form escapes (_ . \\ 0x00 >=0x80 0xc0 0x40): labels of host-name characters only, of arbitrary bytes, of escaped bytes only, or host-name characters with 1-4 escaped bytes. Oracle (acceptance rule taken from the wire format, not from the implementation: labels 1-63 bytes, 255 octets incl. length octets and root): NewName accepts exactly the names the rule allows; MessageFromWireFormat reads the reference wire form of exactly those names; an accepted name is written as its RFC 1035 wire form and survives WriteName->readName, Message.WireFormat->MessageFromWireFormat (second occurrence compressed) and, if made of [0-9A-Za-z-] only, ParseName(String()). Non-trivial = wire length 239-272 octets or longest label 62-65; distinct by labels")
 	defer rec.Flush()
-	rec.Require("octets255:accepted", "label63:accepted", "octets256:rejected", "label64:rejected", "empty-label:rejected", "root:accepted")
+	rec.Require("octets255:accepted", "label63:accepted", "octets256:rejected", "label64:rejected", "empty-label:rejected", "root:accepted", "escaped-bytes:accepted", "escaped-dotted>253:accepted", "escaped-near-limit:accepted", "dotted:accepted", "plain-octets255:accepted")
 	if p := vh.ReplayFile(); p != "" {
 		var c c15NameCase
 		if _, _, err := vh.LoadReplay(p, &c); err != nil {
